@@ -85,6 +85,9 @@ func emitNodeAssemblerMethodAssignNode_listoid(w io.Writer, adjCfg *AdjunctCfg, 
 			if v.Kind() != datamodel.Kind_List {
 				return datamodel.ErrWrongKind{TypeName: "{{ .PkgName }}.{{ .Type.Name }}{{ if .IsRepr }}.Repr{{end}}", MethodName: "AssignNode", AppropriateKind: datamodel.KindSet_JustList, ActualKind: v.Kind()}
 			}
+			if _, err := na.BeginList(v.Length()); err != nil { // allocates what the entries below are assembled into, as for a caller doing this by hand
+				return err
+			}
 			itr := v.ListIterator()
 			for !itr.Done() {
 				_, v, err := itr.Next()
